@@ -31,6 +31,27 @@ TN93Stats(q, t) == [L |-> TnL(q, t), P1 |-> TnP1(q, t), P2 |-> TnP2(q, t), Q |->
                     A |-> BaseCount(t, "A"), C |-> BaseCount(t, "C"), G |-> BaseCount(t, "G"), T |-> BaseCount(t, "T")]
 Completeness(t) == LET RECURSIVE S(_) S(i) == IF i = 0 THEN 0 ELSE Score(Upper(t[i])) + S(i - 1) IN S(Len(t))
 
+(* a unit alignment repeated k times: every count is k times the unit's (MCAlphabet: ThmRepeat), so vectors of  *)
+(* 100,000 columns are judged from their unit                                                              *)
+RepSeq(u, k) == [i \in 1..(k * Len(u)) |-> u[((i - 1) % Len(u)) + 1]]
+ScaleStats(st, k) == [L |-> k * st.L, P1 |-> k * st.P1, P2 |-> k * st.P2, Q |-> k * st.Q, A |-> k * st.A, C |-> k * st.C, G |-> k * st.G, T |-> k * st.T]
+ThmRepeat == \A q, t \in [1..2 -> {"A", "C", "G", "T", "R", "N", "-"}], k \in 1..3 :
+               /\ TN93Stats(RepSeq(q, k), RepSeq(t, k)) = ScaleStats(TN93Stats(q, t), k)
+               /\ SnpDist(RepSeq(q, k), RepSeq(t, k)) = k * SnpDist(q, t)
+               /\ RawDen(RepSeq(q, k), RepSeq(t, k)) = k * RawDen(q, t)
+
+(* runs of identical resolved columns inserted into a unit alignment: the SNP row is the unit's with the      *)
+(* positions shifted (MCAlphabet: ThmPad), so genomes of more than 100,000 columns are judged from their unit  *)
+InsAt(s, g, n) == SubSeq(s, 1, g) \o [i \in 1..n |-> "A"] \o SubSeq(s, g + 1, Len(s))
+RECURSIVE PadSeq(_, _, _)
+PadSeq(s, pads, k) == IF k = 0 THEN s ELSE PadSeq(InsAt(s, pads[k][1], pads[k][2]), pads, k - 1)   \* last pad first
+PadShift(pads, p) == LET RECURSIVE S(_) S(i) == IF i = 0 THEN 0 ELSE (IF pads[i][1] < p THEN pads[i][2] ELSE 0) + S(i - 1) IN p + S(Len(pads))
+ShiftRow(row, pads) == [k \in 1..Len(row) |-> <<row[k][1], PadShift(pads, row[k][2]), row[k][3]>>]
+ThmPad == \A ref, q \in [1..3 -> {"A", "C", "N", "-"}], hard \in BOOLEAN :
+            \A pads \in {<<>>} \cup {<<<<g, n>>>> : g \in 0..3, n \in 1..2} \cup {<<<<g, 1>>, <<h, 2>>>> : g, h \in 0..3} :
+               (Len(pads) = 2 => pads[1][1] <= pads[2][1]) =>
+                 SnpRow(PadSeq(ref, pads, Len(pads)), PadSeq(q, pads, Len(pads)), hard) = ShiftRow(SnpRow(ref, q, hard), pads)
+
 (* the machine the code runs on the bit patterns, per column (MC: agrees with the sets) *)
 BitDiffer(a, b)    == (Enc(a, FALSE) & Enc(b, FALSE)) < 16
 BitSameKnown(a, b) == (Enc(a, FALSE) & 8) = 8 /\ Enc(a, FALSE) = Enc(b, FALSE)
